@@ -48,3 +48,53 @@ pub fn simplify(f: fol::Formula, portfolio_name: &str, strategy: Strategy) -> fo
 pub fn simplify_pass(f: fol::Formula, portfolio_name: &str) -> fol::Formula {
     simplify(f, portfolio_name, Strategy::Recursive)
 }
+
+// ---------------------------------------------------------------------------------------
+// verification tasks through the hooks
+
+use crate::generators::task::{ExternalTask, Flags};
+use anthem::syntax_tree::asp::mini_gringo as asp;
+use anthem::verif::ProblemData;
+
+pub type TaskResult = Result<(Vec<ProblemData>, Vec<String>), (String, String)>;
+
+pub fn external_problems(
+    task: &ExternalTask,
+    outline: &fol::Specification,
+    flags: &Flags,
+    bypass_tightness: bool,
+) -> TaskResult {
+    let spec = match (&task.left_program, &task.left_spec) {
+        (Some(p), _) => either::Either::Left(p.clone()),
+        (None, Some(s)) => either::Either::Right(s.clone()),
+        _ => panic!("task without left side"),
+    };
+    anthem::verif::external(
+        spec,
+        task.right.clone(),
+        task.user_guide.clone(),
+        outline.clone(),
+        flags.sequential,
+        flags.direction,
+        false,
+        bypass_tightness,
+        flags.simplify,
+        flags.eq_break,
+    )
+}
+
+pub fn strong_problems(left: &asp::Program, right: &asp::Program, flags: &Flags, mu: bool) -> Vec<ProblemData> {
+    anthem::verif::strong(
+        left.clone(),
+        right.clone(),
+        flags.sequential,
+        flags.direction,
+        mu,
+        flags.simplify,
+        flags.eq_break,
+    )
+}
+
+pub fn empty_outline() -> fol::Specification {
+    fol::Specification { formulas: vec![] }
+}
